@@ -40,3 +40,14 @@ package patch
 // the same, evaluated on the bytes at function entry (re-encoding modifies the block in place)
 //@ pure func entry_must_relocate(ins *x86asm.Inst, block []byte, pos int, blockSize int) bool = old(must_relocate(ins, block, pos, blockSize))
 //@ pure func entry_target(ins *x86asm.Inst, block []byte, pos int) int = old(ins_target(ins, block, pos))
+
+// fixRelativeAddr: two passes of fixBlock around checkJumpBetween.  TRUSTED for now: its loops are
+// proved only as far as fixIns/EncodeAddress/ParseIns (per instruction); the stream-level statement
+// (both passes stop at the same instruction boundary; every copied instruction went through fixIns)
+// is assumed.
+//@ trusted func fixRelativeAddr
+//@   props C03
+//@   requires block: len(copyOrigin) == funcSize && arr(copyOrigin) != textref && 0 < leastSize
+//@   assigns nothing
+//@   fresh
+//@   ensures ok_shape: err == nil ==> arr(fixedData) != textref && 0 <= len(fixedData) && len(fixedData) < 0x100000 && leastSize <= fixedDataSize && fixedDataSize <= funcSize
